@@ -9,31 +9,22 @@ add_argument keyword selected by `<kw>.arg == "default"`.  Sinks: test of if / w
 operand of `not`, non-final operand of and/or, comprehension condition.  Comparisons (`is None`, `in none_types`,
 `== NoneStr`) are not truthiness tests of the value.
 
-Two construct classes where the conflation is provably harmless are accepted semantically (see _accepted_reason).
+One construct class where the conflation is provably harmless is accepted semantically (see _accepted_reason).  (A second one, 'the
+return entry's default is a source string, so falsy == absent', was withdrawn: parse.function yields the numbers 0 / 0.0 / False
+for `return 0`, and emit.function dropped the return statement for them - fixed in /repo c5bebac.)
+A call `helper(default)` in a truth position counts as a test of the default itself when the helper can hand its argument back
+unchanged (quote(None) is None, quote('') is ''): `quote(d) or '""'` cannot tell None from the empty string.
 
 STRIP-SET: str.lstrip/rstrip/strip with a literal word (>= 4 characters, >= 2 letters) removes a character *set*,
 not a prefix/suffix: on prose it eats leading/trailing letters of the real text.
 """
 import ast
 
-from sa.model import AnalysisError, Finding, enclosing_fn, loc, src
+from sa.model import AnalysisError, Finding, FunctionInfo, enclosing_fn, loc, src
+from sa.rules import nodeflow
 
 def _accepted_reason(fi, c, holder):
     """Semantic exceptions (each a construct class with its reason), not text matches."""
-    # (A) the default of the *return entry* is a source-expression string; '' is not an expression, so falsy == absent
-    recv = None
-    if isinstance(c, ast.Subscript):
-        recv = c.value
-    elif isinstance(c, ast.Call) and isinstance(c.func, ast.Attribute):
-        recv = c.func.value
-    seen = 0
-    while isinstance(recv, ast.Name) and seen < 3:
-        defs = [st.value for st in ast.walk(fi.node) if isinstance(st, ast.Assign) and any(isinstance(t, ast.Name) and t.id == recv.id for t in st.targets)]
-        if len(defs) != 1:
-            break
-        recv, seen = defs[0], seen + 1
-    if recv is not None and any(isinstance(x, ast.Constant) and x.value == "return_type" for x in ast.walk(recv)):
-        return "the return entry's default is a source expression string; the empty string is not an expression, so 'falsy' and 'absent' coincide"
     # (B) `default or simple_types[typ]`: a falsy default is replaced by the zero value of the same declared type
     if isinstance(holder, ast.BoolOp) and isinstance(holder.op, ast.Or):
         last = holder.values[-1]
@@ -114,6 +105,14 @@ def rule_falsy(prog, rep, tier, scope=None):
                     why = "read of the IR key 'default'"
                 elif isinstance(c, ast.Name) and c.id in dn:
                     why = dn[c.id]
+                elif isinstance(c, ast.Call) and isinstance(c.func, (ast.Name, ast.Attribute)):
+                    # `helper(default) or X`: a helper that can hand its argument back unchanged (quote(None) is None, quote('') is '')
+                    # makes this a truth test of the default itself
+                    for i, a in enumerate(c.args):
+                        if _is_default_read(a) or (isinstance(a, ast.Name) and a.id in dn):
+                            for t in prog.resolve_expr_fn(c.func, c):
+                                if isinstance(t, FunctionInfo) and isinstance(t.node, ast.FunctionDef) and nodeflow.may_return_param(prog, t, i):
+                                    why = "%s, handed back unchanged by %s on some path" % (dn.get(getattr(a, "id", None), "read of the IR key 'default'"), t.qualname)
                 if why is None:
                     continue
                 key = (id(c))
